@@ -152,6 +152,56 @@ def run(ctx):
                 ctx.ob("C01.R6a", inst, ok, w.node.where,
                        "value stored as the next slot version is not <expected version> + 1: %s" % pstr(val),
                        site="%s@advance" % inst)
+            # R3 batch range agreement: every slot whose payload the callback receives is observed before and
+            # advanced after - the slot words touched are exactly [first, first + count) of the callback range
+            if len(I.ev.get("args", [])) == 2:
+                rng = []
+                for k in (0, 1):
+                    a = ig.rarg(I, k)
+                    n_ = ig.ev_of(strip_cast(a))
+                    if n_ is not None and n_.ev.get("name") == "value_iterator":
+                        rng.append(strip_cast(ig.rarg(n_, 0)))
+                if len(rng) != 2:
+                    ctx.broken("%s: cannot read the slot range handed to the batch callback" % inst)
+                first, end = rng
+                cnt = None
+                if isinstance(end, dict) and end.get("k") == "b" and end.get("op") == "+" and pstr(end["l"]) == pstr(first):
+                    cnt = strip_cast(end["r"])
+                ctx.ob("C01.R3a", inst, cnt is not None, I.where,
+                       "batch callback range is not [first, first + count): %s .. %s" % (pstr(first), pstr(end)),
+                       site=site)
+
+                def ranged(op):
+                    """slot index of this access is first + i, i the induction variable of `for (i = 0; i < count; ..)`"""
+                    call = L.deep_find(ig, op.obj, lambda d: d.get("k") == "e" and ig.ev_of(d) is not None and
+                                       ig.ev_of(d).ev.get("name") == "futex" and ig.ev_of(d).frame.id == 0)
+                    if call is None:
+                        return False, "slot not selected through the slot vector in this function"
+                    idx = strip_cast(ig.rarg(ig.ev_of(call), 0))
+                    if not (isinstance(idx, dict) and idx.get("k") == "b" and idx.get("op") == "+" and
+                            pstr(idx["l"]) == pstr(first)):
+                        return False, "slot index %s is not <first slot of the callback range> + i" % pstr(idx)
+                    iv = strip_cast(idx["r"])
+                    if not (isinstance(iv, dict) and iv.get("k") == "l"):
+                        return False, "slot index %s does not range over the batch" % pstr(idx)
+                    init_ok = any(how == "decl" and const_val(r_) == 0 for n2, r_, how in ig.local_defs(ig.frames[0], iv["id"]))
+                    bound_ok = False
+                    for bid, b in fn.blocks.items():
+                        if b.get("term") == "ForStmt" and "cond" in b:
+                            c = L.cmp_parts(b["cond"])
+                            if c and c[0] == "<" and strip_cast(c[1]).get("k") == "l" and \
+                                    strip_cast(c[1]).get("id") == iv["id"] and cnt is not None and \
+                                    pstr(ig.resolve(c[2], ig.frames[0])) == pstr(cnt):
+                                bound_ok = True
+                    if not (init_ok and bound_ok):
+                        return False, "slot index %s: '%s' does not run from 0 to the callback's count %s" % (
+                            pstr(idx), iv.get("n"), pstr(cnt))
+                    return True, ""
+                for a in [x for x in reads if ig.path_exists(x.node, I)] + [x for x in vwrites if ig.path_exists(I, x.node)]:
+                    ok, why = ranged(a)
+                    ctx.ob("C01.R3b", "%s@%s" % (inst, a.node.line), ok, a.node.where,
+                           "a batch operation must observe/advance every slot it hands to the callback: " + why,
+                           site="%s@range" % inst)
             # R4 ticket CAS
             if tcas:
                 n_r4 += 1
